@@ -147,6 +147,15 @@ Theorem C03_wiring_unmarshal : forall m w f st,
 Proof. exact wiring_unmarshal_correct. Qed.
 Print Assumptions C03_wiring_unmarshal.
 
+(** ... and the emitted dispatcher MessagesDescriptor.UnmarshalFrame (switch f.ID with one case md.<Msg>.ID per message type
+    constructing a zero <Msg> and calling its UnmarshalFrame, then default) is the interpreter's [dispatch] for ALL frames:
+    the first message of the database registered for the ID, decoded into a fresh zero value, or no message *)
+Theorem C03_wiring_dispatch : forall db p f,
+  package_wiring_ok_c03 db p = true -> dispatch_ok db p = true ->
+  wiring_dispatch db p f = Some (dispatch db f).
+Proof. exact wiring_dispatch_correct. Qed.
+Print Assumptions C03_wiring_dispatch.
+
 (** non-vacuity of the wiring tie: the wiring of the example message as harness/genwire prints it is accepted *)
 Definition C03_example_wiring : wiring :=
   let u8 := [117; 105; 110; 116; 56] in let u16 := [117; 105; 110; 116; 49; 54] in let i16 := [105; 110; 116; 49; 54] in
@@ -154,7 +163,7 @@ Definition C03_example_wiring : wiring :=
   let bool := [98; 111; 111; 108] in let f32 := [102; 108; 111; 97; 116; 51; 50] in let f64 := [102; 108; 111; 97; 116; 54; 52] in
   let fld n := xxx_prefix ++ [n] in
   let st k d c g := {| n_kind := k; n_desc := [d]; n_field := fld d; n_conv := c; n_guard := g |} in
-  {| w_fields := [(fld 1, u8); (fld 2, bool); (fld 3, i16); (fld 4, u16); (fld 5, f32)];
+  {| w_name := [77]; w_fields := [(fld 1, u8); (fld 2, bool); (fld 3, i16); (fld 4, u16); (fld 5, f32)];
      w_types := []; w_msg_index := 3;
      w_descs := [([1], (3, 0)); ([2], (3, 1)); ([3], (3, 2)); ([4], (3, 3)); ([5], (3, 4))];
      w_init := (HId, HExt, HLen);
@@ -170,7 +179,7 @@ Example C03_wiring_nonvacuous :
     Some (frame_of C03_example_message [1; 1; -5; 0xBEEF; 0x40490FDB]) /\
   (* moving one assignment in front of the remote-frame rejection, or guarding the last group with another constant, is refused *)
   unmarshal_wiring_ok C03_example_message
-    {| w_fields := w_fields C03_example_wiring; w_types := []; w_msg_index := 3; w_descs := w_descs C03_example_wiring;
+    {| w_name := [77]; w_fields := w_fields C03_example_wiring; w_types := []; w_msg_index := 3; w_descs := w_descs C03_example_wiring;
        w_init := w_init C03_example_wiring; w_frame := w_frame C03_example_wiring;
        w_unmarshal := match w_unmarshal C03_example_wiring with
                       | a :: b :: c :: d :: e :: tl => a :: b :: e :: c :: d :: tl | l => l end;
